@@ -17,6 +17,7 @@ import Rl.FileSession
 import Rl.Spec.FileSession
 import Rl.Lemmas.FileSession
 import Rl.Lemmas.FileSession2
+import Rl.Lemmas.FileSessionBound
 open Rl Rl.FS
 
 /-! ### the file always loads (operation-atomic model) -/
@@ -574,3 +575,166 @@ theorem C11_counting_needs_common_ignore_space :
       [.add 1 " x".toList, .append 1 1, .add 2 "y".toList, .append 2 2]) false)
       = some ["i", "y"] := by
   decide
+
+/-! ### the size bookkeeping (`path_info`), the bound as a trace invariant, and what is left of the
+    bound when modification times are NOT distinguishable -/
+
+/-- **`path_info` records the true size after an append.**  In a state where the remembered sizes
+    are accurate (`Accurate`: the invariant of runs with distinguishable times) an append by
+    session `i` that has something new — fast path, merge-and-rewrite or the `save` shortcut —
+    leaves `path_info` of `i` = (the new modification time, the number of entries the file now
+    holds); and that number is a function of the file (every entry list that produces the file has
+    that length).  (A fast-path append that adds a wrong number to the remembered size violates
+    this.) -/
+theorem C11_append_records_size (ws : Char → Bool) (s : Sys) (hg : Good s) (hacc : Accurate s) (i mt : Nat)
+    (hnew : (s.sess i).fh.newEntries ≠ 0) :
+    ∃ F', (s.append ws i mt).1.file = some { content := atomsOf (fileOf F'), mtime := mt } ∧
+      ((s.append ws i mt).1.sess i).pathInfo = some (mt, F'.length) ∧
+      ∀ F'', atomsOf (fileOf F'') = atomsOf (fileOf F') → F''.length = F'.length := by
+  obtain ⟨F, fm, hf, hne, hfm, hall⟩ := hacc
+  have hflag : ((s.sess i).fh.mem.entries.isEmpty || (s.sess i).fh.newEntries == 0) = false := by
+    have := (hg.2 i).2
+    have hlen : (s.sess i).fh.mem.entries ≠ [] := by
+      intro h; rw [h] at this; simp at this; exact hnew this
+    simp [hlen, hnew]
+  rw [append_eq ws s i mt fm F hf hne hflag]
+  have hb := appendOut_bound ws s i fm F hg (fun pm size hp => (hall i pm size hp).2)
+  exact ⟨_, rfl, by simp [Sys.wrote, hb.2], fun F'' h => fileOf_length_inj h⟩
+
+/-- **`save`: file, bound and bookkeeping, with no assumption on modification times.**  A save by
+    a session that has something new replaces the file by exactly that session's entries — at
+    most `max_len` of them — and records (new time, that number) as `path_info`. -/
+theorem C11_save_bound (s : Sys) (hg : Good s) (i mt : Nat) (hnew : (s.sess i).fh.newEntries ≠ 0) :
+    (s.save i mt).1.file = some { content := atomsOf (fileOf (s.sess i).fh.mem.entries), mtime := mt } ∧
+    (s.sess i).fh.mem.entries.length ≤ (s.sess i).fh.mem.maxLen ∧
+    ((s.save i mt).1.sess i).pathInfo = some (mt, (s.sess i).fh.mem.entries.length) := by
+  have hflag : ((s.sess i).fh.mem.entries.isEmpty || (s.sess i).fh.newEntries == 0) = false := by
+    have := (hg.2 i).2
+    have hlen : (s.sess i).fh.mem.entries ≠ [] := by
+      intro h; rw [h] at this; simp at this; exact hnew this
+    simp [hlen, hnew]
+  rw [save_eq s i mt hflag]
+  exact ⟨rfl, (hg.2 i).1, by simp [Sys.wrote]⟩
+
+/-- **Whenever the fast path is open, the remembered size is the true size.**  Existing file, fresh
+    sessions (any number, any limits), ANY interleaving with distinguishable modification times
+    (`DistRun`): in the state reached, if `can_just_append` holds for a session `j`, then the size
+    in its `path_info` is exactly the number of entries in the file, and appending its new lines
+    keeps the file within its limit. -/
+theorem C11_fast_path_size_exact (ws : Char → Bool) (es0 : List Text) (m0 : Nat) (cfg : Nat → Nat × Bool × Bool)
+    (hne : ∀ e ∈ es0, e ≠ []) (ops : List Op)
+    (hd : DistRun ws (Sys.init (some { content := atomsOf (fileOf es0), mtime := m0 }) cfg) ops) (j : Nat) :
+    ∃ F fm, ((Sys.init (some { content := atomsOf (fileOf es0), mtime := m0 }) cfg).run ws ops).file
+        = some { content := atomsOf (fileOf F), mtime := fm } ∧
+      (canJustAppend (((Sys.init (some { content := atomsOf (fileOf es0), mtime := m0 }) cfg).run ws ops).sess j)
+          { content := atomsOf (fileOf F), mtime := fm } = true →
+        ∃ pm, (((Sys.init (some { content := atomsOf (fileOf es0), mtime := m0 }) cfg).run ws ops).sess j).pathInfo
+            = some (pm, F.length) ∧
+          F.length + (((Sys.init (some { content := atomsOf (fileOf es0), mtime := m0 }) cfg).run ws ops).sess j).fh.newEntries
+            ≤ (cfg j).1) := by
+  have h := run_accurate ws ops _ (init_good es0 m0 cfg hne) (init_accurate es0 m0 cfg hne) hd
+  have hmax := run_maxLen ws ops _ cfg (init_good es0 m0 cfg hne) j
+  obtain ⟨F, fm, hf, _, _, hall⟩ := h.1
+  refine ⟨F, fm, hf, fun hc => ?_⟩
+  obtain ⟨pm, size, hp, hpm, hlt, hle⟩ := (canJustAppend_iff _ _).mp hc
+  have hsz : size = F.length := by
+    rcases (hall j pm size hp).2 hpm with h | h
+    · exact h
+    · omega
+  subst hsz
+  exact ⟨pm, hp, by rw [← hmax]; exact hle⟩
+
+/-- **The size limit as an invariant of the whole trace.**  Existing file holding `es0`, fresh
+    sessions (any number, any limits), ANY interleaving with distinguishable modification times:
+    at every moment the file still holds `es0` untouched, or holds at most `max_len j` entries for
+    some session `j` (the last one that wrote).  In particular, if `L` is at least every limit and
+    at least the initial size, the file never holds more than `L` entries. -/
+theorem C11_bound_always (ws : Char → Bool) (es0 : List Text) (m0 : Nat) (cfg : Nat → Nat × Bool × Bool)
+    (hne : ∀ e ∈ es0, e ≠ []) (ops : List Op)
+    (hd : DistRun ws (Sys.init (some { content := atomsOf (fileOf es0), mtime := m0 }) cfg) ops) :
+    ∃ F m, ((Sys.init (some { content := atomsOf (fileOf es0), mtime := m0 }) cfg).run ws ops).file
+        = some { content := atomsOf (fileOf F), mtime := m } ∧
+      (F = es0 ∨ ∃ j, F.length ≤ (cfg j).1) ∧
+      ∀ L, (∀ j, (cfg j).1 ≤ L) → es0.length ≤ L → F.length ≤ L := by
+  obtain ⟨F, ⟨m, hf⟩, hF⟩ := run_bounded ws es0 ops _ (init_good es0 m0 cfg hne)
+    (init_accurate es0 m0 cfg hne) ⟨es0, ⟨m0, rfl⟩, Or.inl rfl⟩ hd
+  have hF' : F = es0 ∨ ∃ j, F.length ≤ (cfg j).1 :=
+    hF.imp id (fun ⟨j, hj⟩ => ⟨j, by rw [run_maxLen ws ops _ cfg (init_good es0 m0 cfg hne) j] at hj; exact hj⟩)
+  refine ⟨F, m, hf, hF', fun L hL h0 => ?_⟩
+  rcases hF' with rfl | ⟨j, hj⟩
+  · exact h0
+  · exact Nat.le_trans hj (hL j)
+
+example : DistRun C11_ws (Sys.init C11_fileI (fun _ => (3, false, false)))
+    [.load 1, .load 2, .add 1 "a".toList, .append 1 1, .add 2 "b".toList, .add 2 "c".toList, .append 2 2] :=
+  ⟨by show _ = []; decide, by show _ = []; decide, trivial, by show _ < _; decide, trivial, trivial, by show _ < _; decide, trivial⟩
+
+/-- **Without distinguishable times: what one append can do.**  NO assumption on modification
+    times or on `path_info`.  An append by session `i` that has something new either leaves at
+    most `max_len i` entries in the file, or it took the fast path: then the new file is the WHOLE
+    old file followed by the new lines (nothing is removed), the session's `path_info` matched the
+    file's modification time, and the file exceeds the limit by at most `|old file| - remembered
+    size`, the number of entries others wrote without the modification time changing.  So the
+    only clause of C11 that needs distinguishable times is the bound; "always loads", the shape
+    of an append, no loss and no double write are proved above without any such hypothesis. -/
+theorem C11_append_overshoot (ws : Char → Bool) (s : Sys) (hg : Good s) (i mt fm : Nat) (F : List Text)
+    (hf : s.file = some { content := atomsOf (fileOf F), mtime := fm }) (hne : ∀ e ∈ F, e ≠ [])
+    (hnew : (s.sess i).fh.newEntries ≠ 0) :
+    ∃ F', (s.append ws i mt).1.file = some { content := atomsOf (fileOf F'), mtime := mt } ∧
+      (F'.length ≤ (s.sess i).fh.mem.maxLen ∨
+        (F' = F ++ newOnes (s.sess i).fh ∧
+          ∃ pm size, (s.sess i).pathInfo = some (pm, size) ∧ pm = fm ∧
+            ((s.append ws i mt).1.sess i).pathInfo = some (mt, size + (s.sess i).fh.newEntries) ∧
+            F'.length ≤ (s.sess i).fh.mem.maxLen + (F.length - size))) := by
+  have hflag : ((s.sess i).fh.mem.entries.isEmpty || (s.sess i).fh.newEntries == 0) = false := by
+    have := (hg.2 i).2
+    have hlen : (s.sess i).fh.mem.entries ≠ [] := by
+      intro h; rw [h] at this; simp at this; exact hnew this
+    simp [hlen, hnew]
+  rw [append_eq ws s i mt fm F hf hne hflag]
+  refine ⟨_, rfl, ?_⟩
+  rcases appendOut_bound_or_fast ws (s.sess i) fm F (hg.2 i) with h | ⟨h1, pm, size, hp, hpm, h2, h3⟩
+  · exact Or.inl h
+  · exact Or.inr ⟨h1, pm, size, hp, hpm, by simp [Sys.wrote, h2], h3⟩
+
+set_option maxRecDepth 100000 in
+/-- **The bound needs distinguishable times (and only the bound is lost).**  Limit 3, file `i`;
+    sessions 1 and 2 load; 1 enters `a` and appends, and that write leaves the modification time
+    it found (0); 2 enters `b`, `c` and appends: its remembered (time 0, size 1) still matches, it
+    takes the fast path and the file holds 4 entries `i a b c` — every line is there, in order,
+    the file loads, only the limit is exceeded.  With distinguishable times (1, then 2) session 2
+    merges and rewrites: `a b c`. -/
+theorem C11_bound_needs_distinguishable :
+    C11_entriesOf (SubSys.init ((Sys.init C11_fileI (fun _ => (3, false, false))).run C11_ws
+      [.load 1, .load 2, .add 1 "a".toList, .append 1 0, .add 2 "b".toList, .add 2 "c".toList, .append 2 0]) false)
+      = some ["i", "a", "b", "c"] ∧
+    C11_entriesOf (SubSys.init ((Sys.init C11_fileI (fun _ => (3, false, false))).run C11_ws
+      [.load 1, .load 2, .add 1 "a".toList, .append 1 1, .add 2 "b".toList, .add 2 "c".toList, .append 2 2]) false)
+      = some ["a", "b", "c"] := by
+  decide
+
+/-- **`path_info` = the true size, along whole traces.**  Existing file, fresh sessions, any
+    interleaving with distinguishable times, then an append by any session `i` that has something
+    new (with ANY time): the size `i` remembers is the number of entries the file now holds. -/
+theorem C11_path_info_size_exact (ws : Char → Bool) (es0 : List Text) (m0 : Nat) (cfg : Nat → Nat × Bool × Bool)
+    (hne : ∀ e ∈ es0, e ≠ []) (ops : List Op)
+    (hd : DistRun ws (Sys.init (some { content := atomsOf (fileOf es0), mtime := m0 }) cfg) ops)
+    (i mt : Nat)
+    (hnew : (((Sys.init (some { content := atomsOf (fileOf es0), mtime := m0 }) cfg).run ws ops).sess i).fh.newEntries ≠ 0) :
+    ∃ F', (((Sys.init (some { content := atomsOf (fileOf es0), mtime := m0 }) cfg).run ws ops).append ws i mt).1.file
+        = some { content := atomsOf (fileOf F'), mtime := mt } ∧
+      ((((Sys.init (some { content := atomsOf (fileOf es0), mtime := m0 }) cfg).run ws ops).append ws i mt).1.sess i).pathInfo
+        = some (mt, F'.length) := by
+  have h := run_accurate ws ops _ (init_good es0 m0 cfg hne) (init_accurate es0 m0 cfg hne) hd
+  obtain ⟨F', h1, h2, _⟩ := C11_append_records_size ws _ h.2 h.1 i mt hnew
+  exact ⟨F', h1, h2⟩
+
+/-- Non-vacuity of the hypotheses `Good`, `Accurate`, "something new" used above: the state after
+    session 1 loaded the file `i` and entered `a`. -/
+example : ∃ s : Sys, Good s ∧ Accurate s ∧ (s.sess 1).fh.newEntries ≠ 0 ∧ s.file = C11_fileI :=
+  have h := run_accurate C11_ws [.load 1, .add 1 "a".toList]
+    (Sys.init (some { content := atomsOf (fileOf ["i".toList]), mtime := 0 }) (fun _ => (3, false, false)))
+    (init_good _ 0 _ (by show ∀ e ∈ ["i".toList], e ≠ []; decide))
+    (init_accurate _ 0 _ (by show ∀ e ∈ ["i".toList], e ≠ []; decide))
+    ⟨by show _ = []; decide, trivial, trivial⟩
+  ⟨_, h.2, h.1, by decide, by decide⟩
